@@ -65,7 +65,7 @@ def _impl_sig(h):
     return out, (a.kwarg.arg if a.kwarg else None)
 
 
-def check(ctx, rep: Report):
+def _check_main(ctx, rep: Report):
     helpers = dict(ctx.helpers)
     init_h = core_impl(ctx.H, "init")
     all_h = list(helpers.values()) + [init_h]
@@ -459,3 +459,11 @@ def check(ctx, rep: Report):
     for pz in bad:
         rep.violate(Violation("C17.REACH", "C17.REACH|parents-not-mro", f"the constructor advertises the attributes of every ancestor but only invokes the constructors of `{pz.split('/.__init__')[0]}`: a keyword for a grandparent-owned attribute is accepted and silently dropped",
                               "", "InitMethod.init"))
+
+
+def check(ctx, rep):
+    _check_main(ctx, rep)
+    from .c06 import inserter_tables_rule
+    inserter_tables_rule(ctx, rep, "C17.INSERT")      # the advertised _index/_insert/replace flags reach the container operation
+    from . import shared
+    shared.unused_params(ctx, rep, "C17.PARAM", ["spec_classes.methods", "spec_classes.utils.method_builder"])
